@@ -5,18 +5,20 @@ For each: git -C /repo apply (3-way fallback: --3way is not used; a patch that n
 run the quick check(s) named in meta.json, expect exit 1, then git -C /repo checkout -- . ."""
 import json, os, subprocess, sys
 V = os.path.dirname(os.path.dirname(os.path.abspath(__file__)))
+REPO = os.environ.get("VERIF_REPO", "/repo")
 def sh(cmd, cwd=None):
     return subprocess.run(cmd, shell=True, cwd=cwd, stdout=subprocess.PIPE, stderr=subprocess.STDOUT, text=True)
 def main():
     ids = sys.argv[1:] or sorted(os.listdir(f"{V}/seeded"))
-    assert sh("git -C /repo status --porcelain --untracked-files=no").stdout.strip() == "", "repo dirty"
+    if REPO == "/repo":
+        assert sh("git -C /repo status --porcelain --untracked-files=no").stdout.strip() == "", "repo dirty"
     bad = 0
     for i in ids:
         d = f"{V}/seeded/{i}"
         if not os.path.exists(f"{d}/patch.diff"): continue
         meta = json.load(open(f"{d}/meta.json"))
         props = meta.get("confirmed", {}).get("properties") or [meta.get("property")]
-        a = sh(f"git -C /repo apply {d}/patch.diff")
+        a = sh(f"git apply {d}/patch.diff", cwd=REPO)
         if a.returncode != 0:
             print(f"{i}: STALE (patch no longer applies: {a.stdout.strip()[:120]})"); continue
         try:
@@ -29,6 +31,6 @@ def main():
             # a change is detected when at least one of the checks it was evaluated against reports it
             if not caught: bad += 1; print(f"{i}: NOT DETECTED")
         finally:
-            sh("git -C /repo checkout -- .")
+            sh(f"git apply -R {d}/patch.diff", cwd=REPO)
     return 1 if bad else 0
 sys.exit(main())
